@@ -34,6 +34,9 @@ def live_ranges(c):
     out = []
     for p in c.paragraphs:
         d = p.to_dict()
+        for name, v in d.items():
+            if isinstance(v, str) and v.strip() and name not in p.line_numbers_by_field:
+                raise AssertionError('field %r has the value %r and no range' % (name, v[:60]))
         for name, rng_ in p.line_numbers_by_field.items():
             v = d.get(name)
             if isinstance(v, str) and v.strip():
